@@ -41,6 +41,8 @@ typedef struct {
     char *name;
     uint16_t slot;
     char *struct_type;  /* Struct type name for field resolution (NULL if not a struct) */
+    char **union_fields;   /* Match binding: field names of the matched variant (else NULL) */
+    int union_field_count;
 } Local;
 
 typedef struct {
@@ -251,6 +253,8 @@ static uint16_t local_add(CG *cg, const char *name, int line) {
     cg->locals[slot].name = (char *)name;
     cg->locals[slot].slot = slot;
     cg->locals[slot].struct_type = NULL;
+    cg->locals[slot].union_fields = NULL;
+    cg->locals[slot].union_field_count = 0;
     cg->local_count++;
     return slot;
 }
@@ -1899,6 +1903,21 @@ static void compile_expr(CG *cg, ASTNode *node) {
             }
         }
 
+        /* Match binding (c in `Consensus(c) => ...`): the local holds the union
+         * value itself; the field index is its position in the matched variant */
+        if (obj->type == AST_IDENTIFIER) {
+            int16_t ls = local_find(cg, obj->as.identifier);
+            if (ls >= 0 && cg->locals[ls].union_fields) {
+                for (int fi = 0; fi < cg->locals[ls].union_field_count; fi++) {
+                    if (strcmp(cg->locals[ls].union_fields[fi], field) == 0) {
+                        compile_expr(cg, obj);
+                        emit_op(cg, OP_UNION_FIELD, fi);
+                        goto field_done;
+                    }
+                }
+            }
+        }
+
         /* Regular struct field access */
         compile_expr(cg, obj);
 
@@ -2029,6 +2048,10 @@ static void compile_expr(CG *cg, ASTNode *node) {
             if (binding && binding[0] != '\0') {
                 emit_op(cg, OP_DUP);  /* keep union on stack */
                 uint16_t bslot = local_add(cg, binding, node->line);
+                if (ud && union_variant_index(ud, variant) >= 0) {
+                    cg->locals[bslot].union_fields = ud->variant_field_names[vi];
+                    cg->locals[bslot].union_field_count = ud->variant_field_counts[vi];
+                }
                 emit_op(cg, OP_STORE_LOCAL, (int)bslot);
             }
 
